@@ -4,8 +4,8 @@ from vlib import std, hbuild
 
 PID = "C55"
 META = {
-    "text": "Theorems (Properties_C55.v, 12, closed under the global context) hold for ANY number of processes, ANY scripts over openForWriting(+setKey)/openForWritingAt/append-a-slice/startAppending/closeForWriting/abortWriting/openForReading/chain walk/closeForReading/closeForReadingAndFreeIdle/freeEntry/freeEntryByKey on a map of any size and ANY interleaving of their single atomic operations (those inside the ReadWriteLock methods included): (1) composition with C54: every process takes part in the lock of every anchor as two RwlockModel processes (its open entry; its freeEntry/freeEntryByKey calls) and the C54 counting invariant holds per anchor in every reachable state, so no assert() about writing()/reading() can fail; (2) never two writers (exclusive, appending or aborting) on one entry; (3) a process that holds an entry open for reading holds it under the requested key (the anchor's key equals the key it asked for, in every later state until it closes), and any writer coexisting with it has called startAppending (or is that appending writer inside abortWriting, about to mark the entry); no freeEntry/freeEntryByKey call holds the entry exclusively meanwhile; (4) a successful openForReading saw waitingToBeFreed = false and the requested key at the step at which it succeeded; the key of an anchor changes and a set waitingToBeFreed mark disappears only in steps of an exclusive holder (rewind() while freeing, setKey() of the creating writer), hence never while a reader holds the entry; (5) a slice is returned to the pool only inside freeChainAt() of an activity holding exclusively the anchor whose chain it walks, hence never through the chain of an entry that is open for reading [PARTIAL: that chains of different entries are disjoint is not proved; the oracle checks slice ownership on every explored schedule]; (6) when every process has closed what it opened, every anchor's lock is idle and lockExclusive/lockShared/lockHeaders succeed again. The model is tied to the code by running the extracted model and the real StoreMap.cc + ReadWriteLock.cc, compiled unmodified from the working tree against a scheduler-controlled std::atomic (harness/sched_atomic.h), on the same scripts and schedules (a context switch is possible at every atomic operation) and diffing events, final anchors/slices/counters/pool and a reuse probe; the oracle independently tracks holders, entry incarnations, delete requests and slice ownership from the implementation's events.",
-    "note": "Trusted: Coq kernel, extraction, harness/sched_atomic.h + h_storemap.cc (cooperative scheduler, heap-backed Ipc::Mem::Segment, slice pool, client protocol: one open entry per process, only legal calls, valid filenos), sequentially consistent atomics, plain accesses (key words) executed with the preceding atomic operation, uint32/int32 counters as unbounded integers, Store::Root().markedForDeletion() = false in setKey(), Config.paranoid_hit_validation = 0 (validateHit never runs). NOT modelled (so not covered by the theorems nor by the runs): openForUpdating/closeForUpdating/abortUpdating (header updates, splicing, fileNos relocation), openOrCreateForReading, switchWritingToReading, forgetWritingEntry, purgeOne. Not proved: disjointness of slice chains (theorem C55_slices_not_freed_while_read_partial says what is missing), absence of the data assertions validSlice()/assert(s.empty()) (model state Stuck*; the oracle reports any assertion as a violation), termination of every operation (runner answer FUEL is reported by the oracle). Quirks of the code seen while modelling (outside the property, reproduced in corpus/C55/regress.txt): freeEntry()/freeEntryByKey() on a never-used anchor drive anchors->count negative; an entry written under the all-zero key is empty() for ever and its slices are never returned by freeChain(); a freeEntry() mark placed between openForWriting() and the writer's setKey() is erased by setKey() although freeEntry() answered true. StoremapModel.v is validated against the code only on the generated schedules. Extra proof file: coq/StoremapLock.v.",
+    "text": "PARTIAL: the theorems are proved for scripts without update operations; openForUpdating/sliceContaining/fresh-prefix writes/closeForUpdating/abortUpdating are modelled at the same grain, exercised in every run and judged by the oracle (after an update every chain walk yields fresh prefix ++ old suffix; a recycled stale anchor frees exactly the replaced prefix; every operation frees exactly the slices of the one entry it may free; no slice of an open or current entry is freed; one updater per entry; fileNos follow the relocations), which also exposes one real violation of the unchanged tree (known finding C55-shared-suffix-freed-under-stale-reader, Coq witness C55_stale_reader_loses_shared_suffix_refuted). Theorems (Properties_C55.v, 12 + 1 refutation, closed under the global context) hold for ANY number of processes, ANY scripts over openForWriting(+setKey)/openForWritingAt/append-a-slice/startAppending/closeForWriting/abortWriting/openForReading/chain walk/closeForReading/closeForReadingAndFreeIdle/freeEntry/freeEntryByKey on a map of any size and ANY interleaving of their single atomic operations (those inside the ReadWriteLock methods included): (1) composition with C54: every process takes part in the lock of every anchor as two RwlockModel processes (its open entry; its freeEntry/freeEntryByKey calls) and the C54 counting invariant holds per anchor in every reachable state, so no assert() about writing()/reading() can fail; (2) never two writers (exclusive, appending or aborting) on one entry; (3) a process that holds an entry open for reading holds it under the requested key (the anchor's key equals the key it asked for, in every later state until it closes), and any writer coexisting with it has called startAppending (or is that appending writer inside abortWriting, about to mark the entry); no freeEntry/freeEntryByKey call holds the entry exclusively meanwhile; (4) a successful openForReading saw waitingToBeFreed = false and the requested key at the step at which it succeeded; the key of an anchor changes and a set waitingToBeFreed mark disappears only in steps of an exclusive holder (rewind() while freeing, setKey() of the creating writer), hence never while a reader holds the entry; (5) a slice is returned to the pool only inside freeChainAt() of an activity holding exclusively the anchor whose chain it walks, hence never through the chain of an entry that is open for reading [PARTIAL: that chains of different entries are disjoint is not proved; the oracle checks slice ownership on every explored schedule]; (6) when every process has closed what it opened, every anchor's lock is idle and lockExclusive/lockShared/lockHeaders succeed again. The model is tied to the code by running the extracted model and the real StoreMap.cc + ReadWriteLock.cc, compiled unmodified from the working tree against a scheduler-controlled std::atomic (harness/sched_atomic.h), on the same scripts and schedules (a context switch is possible at every atomic operation) and diffing events, final anchors/slices/counters/pool and a reuse probe; the oracle independently tracks holders, entry incarnations, delete requests and slice ownership from the implementation's events.",
+    "note": "Trusted: Coq kernel, extraction, harness/sched_atomic.h + h_storemap.cc (cooperative scheduler, heap-backed Ipc::Mem::Segment, slice pool, client protocol: one open entry per process, only legal calls, valid filenos), sequentially consistent atomics, plain accesses (key words) executed with the preceding atomic operation, uint32/int32 counters as unbounded integers, Store::Root().markedForDeletion() = false in setKey(), Config.paranoid_hit_validation = 0 (validateHit never runs). NOT covered by the theorems (correspondence runs + oracle only): openForUpdating/sliceContaining/closeForUpdating/abortUpdating (header updates, splicing, fileNos relocation); observed there and left as the code has them: an updater that passed openForReadingAt before a concurrent update completed goes on to update the superseded version (its fresh anchor is born marked and the key then maps to it), and a freeEntryByKey that read fileNos before the relocation marks only the stale version (the race the code comments acknowledge). NOT modelled: openOrCreateForReading, switchWritingToReading, forgetWritingEntry, purgeOne. Not proved: disjointness of slice chains (theorem C55_slices_not_freed_while_read_partial says what is missing), absence of the data assertions validSlice()/assert(s.empty()) (model state Stuck*; the oracle reports any assertion as a violation), termination of every operation (runner answer FUEL is reported by the oracle). Quirks of the code seen while modelling (outside the property, reproduced in corpus/C55/regress.txt): freeEntry()/freeEntryByKey() on a never-used anchor drive anchors->count negative; an entry written under the all-zero key is empty() for ever and its slices are never returned by freeChain(); a freeEntry() mark placed between openForWriting() and the writer's setKey() is erased by setKey() although freeEntry() answered true. StoremapModel.v is validated against the code only on the generated schedules. Extra proof file: coq/StoremapLock.v.",
     "technique": "Coq proof (inductive invariants over all interleavings of an unbounded number of processes: the C54 counting "
                  "invariant re-established per anchor by composition, plus Owicki-Gries style data invariants) + extracted-model "
                  "differential correspondence under a scheduler-controlled std::atomic",
@@ -632,7 +632,7 @@ def run(res, tier):
                        "pool and the client protocol")
     std.run_standard(res, PID, tier, area="storemap", build_impl=impl, gen_cases=gen_cases, oracle=oracle,
                      corr_name="StoremapModel vs src/ipc/StoreMap.cc + ReadWriteLock.cc under sched_atomic.h",
-                     n_quick=8000, n_thorough=100000, seed_salt=55, mutate=mutate,
+                     n_quick=7000, n_thorough=100000, seed_salt=55, mutate=mutate,
                      kind_fn=kind, nontrivial_fn=lambda c, o: overlapped(o))
     res.extra["outcomes"] = dict(STATS)
 
